@@ -298,8 +298,6 @@ Proof.
         -- destruct ns; [split; assumption | exact Logic.I].
         -- pose proof (inv_sym _ _ I _ _ _ _ L (sinside_inside _ _ Hp)) as (m' & ns2 & -> & Hg).
            rewrite removelast_last in Hg.
-           assert (Hfollow : forall nl', walk_post wd f strict
-                     (walk fuel f nl' (if a then [] else cur) ((Ups m' ++ Nms ns2) ++ Nms ns) follow) \/ True) by (intros; now right).
            assert (Hgo : (ns <> [] \/ follow = true) -> forall nl', walk_post wd f strict
                      (walk fuel f nl' (if a then [] else cur) ((Ups m' ++ Nms ns2) ++ Nms ns) follow)).
            { intros Hor nl'. rewrite Ups_Nms_app. apply IH.
@@ -830,4 +828,211 @@ Proof.
     injection H as <- _.
     pose proof (push_keeps _ _ _ _ _ _ I Ho P) as K1.
     eapply Keeps_trans; [exact K1|]. eapply IH; eauto. exact (proj1 K1).
+Qed.
+
+(* ---------- names that resolve outside are rejected ---------- *)
+
+(* the lexical location a name denotes, taken relative to the working directory *)
+Definition lex_loc (wd : path) (s : str) : path :=
+  clean_abs (if is_abs s then comps_of s else Nms wd ++ comps_of s).
+
+Lemma write_path_lex g wd title raw :
+  write_path g wd title = Some raw -> inside wd (lex_loc wd title) = true /\ clean_abs raw = lex_loc wd title.
+Proof.
+  unfold write_path, lex_loc. destruct (is_abs title).
+  - destruct (inside wd (clean_abs (comps_of title))) eqn:E; [|discriminate].
+    intros [= <-]. split; [reflexivity|]. destruct (fixA g); [apply clean_abs_names | reflexivity].
+  - rewrite clean_abs_names.
+    destruct (inside wd (clean_abs (Nms wd ++ comps_of title))) eqn:E; [|discriminate].
+    intros [= <-]. split; [reflexivity|]. destruct (fixA g); apply clean_abs_names.
+Qed.
+
+Lemma push_outside_title g wd cwd s o :
+  inside wd (lex_loc wd (push_title o)) = false -> push_title o <> [] ->
+  push g wd cwd s o = (s, false).
+Proof.
+  intros H Hne. unfold push. destruct (push_title o) as [|t0 tt] eqn:ET; [contradiction|].
+  rewrite <- ET in *. destruct (existsb (str_eqb (push_title o)) (st_names s)); [reflexivity|].
+  destruct (write_path g wd (push_title o)) as [raw|] eqn:EW; [|reflexivity].
+  apply write_path_lex in EW as [E _]. congruence.
+Qed.
+
+(* an accepted entry name denotes a location below the unpack directory *)
+Lemma entry_rel_inside wd title nm ns :
+  entry_rel (lex_loc wd title) title nm = Some ns ->
+  lex_loc wd nm = lex_loc wd title ++ ns.
+Proof.
+  unfold entry_rel, lex_loc, rel_under, clean_str. destruct (is_abs nm) eqn:An.
+  - cbn [Bool.eqb fst snd andb Nat.eqb]. intro H. apply strip_prefix_spec in H. exact H.
+  - destruct (is_abs title) eqn:At; cbn [Bool.eqb andb]; [discriminate|].
+    destruct (Nat.eqb (fst (clean_rel (comps_of title))) (fst (clean_rel (comps_of nm)))) eqn:Em; [|discriminate].
+    apply Nat.eqb_eq in Em. intro H. apply strip_prefix_spec in H.
+    rewrite !clean_abs_join, H, Em, app_assoc. reflexivity.
+Qed.
+
+Lemma entry_outside_rejected g wd cwd title f e :
+  inside wd (lex_loc wd title) = true ->
+  inside wd (lex_loc wd (entry_name e)) = false ->
+  extract_entry g cwd (lex_loc wd title) title f e = None.
+Proof.
+  intros Ht He. unfold extract_entry, resolve_rel.
+  destruct (entry_rel (lex_loc wd title) title (entry_name e)) as [ns|] eqn:E; [|reflexivity].
+  apply entry_rel_inside in E. rewrite E, inside_app in He; [discriminate | exact Ht].
+Qed.
+
+Lemma extract_stops g cwd dp dirName e es2 : forall es1 f,
+  (forall f0, extract_entry g cwd dp dirName f0 e = None) ->
+  snd (extract g cwd dp dirName f (es1 ++ e :: es2)) = false.
+Proof.
+  induction es1 as [|e1 es1 IH]; intros f H; cbn [app extract].
+  - now rewrite H.
+  - destruct (extract_entry g cwd dp dirName f e1); [now apply IH | reflexivity].
+Qed.
+
+(* ---------- a concrete tree: the hypotheses are satisfiable, the unrepaired code escapes ---------- *)
+
+Definition wd0 : path := [b "r"; b "w"].
+Definition cwd0 : path := [b "c"].
+Definition fs0 : fsys :=
+  mkFS [ ([b "r"], NDir); ([b "r"; b "w"], NDir); ([b "r"; b "victim"], NFile 0);
+         ([b "victim"], NFile 1); ([b "c"], NDir); ([b "c"; b "secret"], NFile 2);
+         ([b "r"; b "x"], NDir); ([b "r"; b "x"; b "victim"], NFile 3);
+         ([b "r"; b "w"; b "old"], NFile 4) ]
+       [ (0, 100%N); (1, 101%N); (2, 102%N); (3, 103%N); (4, 104%N) ] 5.
+
+Lemma inv_fs0 : Inv wd0 fs0.
+Proof.
+  constructor.
+  - intros q r E Hq. destruct q as [|q1 [|q2 [|q3 q']]]; [contradiction| | |].
+    + injection E as <- _. reflexivity.
+    + injection E as <- <- _. reflexivity.
+    + apply (f_equal (@length _)) in E. simpl in E. rewrite app_length in E. lia.
+  - intros p d a cs H. unfold lookup, fs0 in H. cbn [ents lookup_ents] in H.
+    repeat match type of H with
+           | (if ?c then _ else _) = _ => destruct c; [discriminate|]
+           end. discriminate.
+  - intros p q i Hp Hq. unfold lookup, fs0 in Hp, Hq. cbn [ents lookup_ents] in Hp, Hq.
+    repeat match type of Hp with
+           | (if path_eqb ?k p then _ else _) = _ =>
+             let E := fresh "E" in destruct (path_eqb k p) eqn:E;
+             [apply path_eqb_spec in E; subst p; try discriminate Hp | ]
+           end; try discriminate Hp;
+    injection Hp as <-;
+    repeat match type of Hq with
+           | (if path_eqb ?k q then _ else _) = _ =>
+             let E := fresh "E" in destruct (path_eqb k q) eqn:E;
+             [apply path_eqb_spec in E; subst q; try discriminate Hq | ]
+           end; try discriminate Hq; intros; try assumption; try reflexivity.
+  - intros p i H. change (nexti fs0) with 5. unfold lookup, fs0 in H. cbn [ents lookup_ents] in H.
+    repeat match type of H with
+           | (if ?c then _ else _) = _ =>
+             destruct c; [first [discriminate H | (injection H as H; subst i; lia)] |]
+           end. discriminate.
+Qed.
+
+Definition run0 (g : cfg) (os : list pushop) : fsys * list bool :=
+  let '(s, oks) := pushes g wd0 cwd0 (mkStore fs0 []) os in (st_fs s, oks).
+
+Definition escapes (g : cfg) : Prop :=
+  exists os p, Forall (push_ok wd0) os /\ inside wd0 p = false /\
+               view_at (fst (run0 g os)) p <> view_at fs0 p.
+
+Ltac escape_with os p :=
+  exists os, p; split;
+  [ repeat (constructor; try (vm_compute; repeat constructor; try discriminate))
+  | split; [vm_compute; reflexivity | vm_compute; discriminate] ].
+
+(* F10: hard link whose relative target is taken from the process's current directory *)
+Definition os_hardlink_cwd : list pushop :=
+  [PDir (b "t") [EHard (b "t/h") (b "secret"); EReg (b "t/h") 7%N]].
+Lemma refuted_hardlink_cwd : escapes (mkCfg false true true true true).
+Proof. escape_with os_hardlink_cwd [b "c"; b "secret"]. Qed.
+
+(* F11: link created with the raw target *)
+Definition os_raw_target : list pushop :=
+  [PDir (b "t") [EDir (b "t/a/b"); ESym (b "t/a/b/s") (b "../..");
+                 ESym (b "t/l") (b "a/b/s/../../../victim"); EReg (b "t/l") 7%N]].
+Lemma refuted_raw_target : escapes (mkCfg true false true true true).
+Proof. escape_with os_raw_target [b "victim"]. Qed.
+
+(* unpack directory reached through a link created by the store *)
+Definition os_title_through_link : list pushop :=
+  [PDir (b ".") [ESym (b "./x") (b ".")];
+   PDir (b "x") [ESym (b "x/l") (b "../x/victim"); EReg (b "x/l") 7%N]].
+Lemma refuted_title_through_link : escapes (mkCfg true true false true true).
+Proof. escape_with os_title_through_link [b "r"; b "x"; b "victim"]. Qed.
+
+(* absolute title used raw: ".." after a store link *)
+Definition os_abs_title : list pushop :=
+  [PDir (b "t") [EDir (b "t/b"); ESym (b "t/b/s") (b "..")];
+   PBlob (b "/r/w/t/b/s/../../../victim") 7%N].
+Lemma refuted_abs_title : escapes (mkCfg true true true false true).
+Proof. escape_with os_abs_title [b "victim"]. Qed.
+
+(* hard link to a symbolic link *)
+Definition os_hardlink_symlink : list pushop :=
+  [PDir (b "t") [EDir (b "t/b/c"); ESym (b "t/b/c/s") (b "../.."); EHard (b "t/h") (b "b/c/s")];
+   PBlob (b "t/h/victim") 7%N].
+Lemma refuted_hardlink_symlink : escapes (mkCfg true true true true false).
+Proof. escape_with os_hardlink_symlink [b "r"; b "victim"]. Qed.
+
+Lemma prefix_escapes : escapes cfg_prefix.
+Proof. escape_with os_hardlink_cwd [b "c"; b "secret"]. Qed.
+
+(* the repaired store accepts ordinary archives (hypotheses and success are not vacuous) *)
+Definition os_ordinary : list pushop :=
+  [PDir (b "t") [EDir (b "t/a/b"); EReg (b "t/a/b/f") 7%N; ESym (b "t/a/b/s") (b "../..");
+                 ESym (b "t/l") (b "a/b/s/../x"); EHard (b "t/h") (b "a/b/f"); EReg (b "t/h") 8%N;
+                 ESym (b "t/l") (b "a/b/f"); EReg (b "t/l") 9%N];
+   PBlob (b "t/a/new") 10%N; PBlob (b "old") 11%N].
+
+Lemma ordinary_ok :
+  Forall (push_ok wd0) os_ordinary /\
+  snd (run0 cfg_fixed os_ordinary) = [true; true; true] /\
+  view_at (fst (run0 cfg_fixed os_ordinary)) [b "r"; b "w"; b "t"; b "a"; b "b"; b "f"] = VFile 9%N /\
+  view_at (fst (run0 cfg_fixed os_ordinary)) [b "r"; b "w"; b "old"] = VFile 11%N.
+Proof.
+  split; [repeat (constructor; try (vm_compute; repeat constructor; try discriminate))|].
+  vm_compute. repeat split.
+Qed.
+
+(* all five attacks are refused or harmless on the repaired store *)
+Lemma attacks_confined_fixed :
+  forall os, In os [os_hardlink_cwd; os_raw_target; os_title_through_link; os_abs_title; os_hardlink_symlink] ->
+  forall p, inside wd0 p = false -> view_at (fst (run0 cfg_fixed os)) p = view_at fs0 p.
+Proof.
+  intros os Hin p Hp. unfold run0.
+  destruct (pushes cfg_fixed wd0 cwd0 (mkStore fs0 []) os) as [s oks] eqn:E. simpl.
+  assert (Hok : Forall (push_ok wd0) os).
+  { simpl in Hin. repeat (destruct Hin as [<-|Hin];
+      [repeat (constructor; try (vm_compute; repeat constructor; try discriminate))|]). contradiction. }
+  apply (proj2 (pushes_keeps wd0 cwd0 os (mkStore fs0 []) s oks inv_fs0 Hok E) p Hp).
+Qed.
+
+Lemma push_outside_entry g wd cwd s title es1 e es2 :
+  title <> [] ->
+  inside wd (lex_loc wd (entry_name e)) = false ->
+  snd (push g wd cwd s (PDir title (es1 ++ e :: es2))) = false.
+Proof.
+  intros Hne He. unfold push. cbn [push_title].
+  destruct title as [|t0 tt] eqn:ET; [contradiction|]. rewrite <- ET in *.
+  destruct (existsb (str_eqb title) (st_names s)); [reflexivity|].
+  destruct (write_path g wd title) as [raw|] eqn:EW; [|reflexivity].
+  apply write_path_lex in EW as [Hin ->].
+  destruct (mkdir_all (st_fs s) raw) as [f1|]; [|reflexivity].
+  match goal with |- snd (if negb ?c then _ else _) = _ => destruct c end; cbn [negb]; [|reflexivity].
+  pose proof (extract_stops g cwd (lex_loc wd title) title e es2 es1 f1
+                (fun f0 => entry_outside_rejected g wd cwd title f0 e Hin He)) as Hs.
+  destruct (extract g cwd (lex_loc wd title) title f1 (es1 ++ e :: es2)) as [f2 ok]. simpl in *. exact Hs.
+Qed.
+
+Definition is_blob (o : pushop) : Prop := match o with PBlob _ _ => True | PDir _ _ => False end.
+
+Lemma pushes_blobs_keeps wd cwd os s s' oks :
+  Inv wd (st_fs s) -> Forall is_blob os ->
+  pushes cfg_fixed wd cwd s os = (s', oks) ->
+  Keeps wd (st_fs s) (st_fs s').
+Proof.
+  intros I Hb. apply pushes_keeps; [exact I|].
+  eapply Forall_impl; [|exact Hb]. intros [t c|t es]; simpl; tauto.
 Qed.
